@@ -74,11 +74,14 @@ inductive ExtractErr where
   | noClientIP        -- "failed to parse client IP: …"
 deriving Repr, DecidableEq
 
-/-- what an extractor reads of a request; `headers` = the header lines in arrival order -/
+/-- what an extractor could read of a request; `headers` = the header lines in arrival order;
+    `urlHost` = `req.URL.Host` (empty for an origin-form request line as the server reads it, set for
+    an absolute-form target, and re-pointed at the backend by a load balancer in front) -/
 structure Req where
   remoteAddr : Str
   host : Str
   headers : List (Str × Str)
+  urlHost : Str
 deriving Repr, DecidableEq
 
 /-- `extractClientIP` on `req.RemoteAddr` -/
@@ -88,7 +91,7 @@ def extractClientIP (remoteAddr : Str) : Except ExtractErr (Str × Int) :=
     | .error _ => remoteAddr      -- no port: take the whole address
   if host = [] then .error .noClientIP else .ok (host, 1)
 
-/-- `extractHost` -/
+/-- `extractHost`: `req.Host`, never `req.URL.Host` -/
 def extractHost (host : Str) : Except ExtractErr (Str × Int) := .ok (host, 1)
 
 /-- `textproto.validHeaderFieldByte` -/
